@@ -705,7 +705,7 @@ func (P *Prog) checkIndexAgreement(r *Result) {
 			r.ok("C03/index-agreement", c, P.ipos(disp), "source[i] -> destination[i] at path [i], i = 0..len-1")
 		}
 	}
-	r.floor("C03/index-agreement", 2)
+	r.floor("C03/index-agreement", 1)
 }
 
 // sliceLitHas: variadic []any{..} holding (an interface of) v.
@@ -801,7 +801,7 @@ func (P *Prog) checkStructWritesByField(r *Result) {
 			r.ok("C03/struct-writes-by-field", fname(fn), P.pos(fn.Pos()), fmt.Sprintf("no reflect write on the whole struct; %d by-name field selection(s) in the schema loop", fieldSel))
 		}
 	}
-	r.floor("C03/struct-writes-by-field", 2)
+	r.floor("C03/struct-writes-by-field", 1)
 }
 
 // checkPointerAlloc: PointerSchema.process allocates only when the destination
